@@ -18,6 +18,7 @@ import (
 	"net"
 	"os"
 	"os/exec"
+	"reflect"
 	"runtime"
 	"sort"
 	"strconv"
@@ -67,8 +68,9 @@ type tcase struct {
 	Tries       int     `json:"tries"`
 	// end-to-end: run this sx binary (`sx socks -p PORT IP --json -t <tdata>ms`) instead of calling Scan;
 	// obs is then 0 (a record was printed) or 1 (none), tdial is ignored (the CLI has one --timeout)
-	E2E    string `json:"e2e,omitempty"`
-	Stderr string `json:"stderr,omitempty"`
+	PrintPanic string `json:"print_panic,omitempty"` // printing the returned record (String / MarshalJSON / ID) panics with this
+	E2E        string `json:"e2e,omitempty"`
+	Stderr     string `json:"stderr,omitempty"`
 }
 
 // cliProbe runs the real command line.
@@ -89,6 +91,13 @@ func (p *cliProbe) Scan(ctx context.Context, r *scan.Request) (scan.Result, erro
 		p.stderr = p.stderr[len(p.stderr)-300:]
 	}
 	if err != nil {
+		if i := strings.Index(se.String(), "panic:"); i >= 0 {
+			msg := se.String()[i:]
+			if j := strings.Index(msg, "\n"); j > 0 {
+				msg = msg[:j]
+			}
+			return nil, &cliCrash{fmt.Sprintf("sx socks crashed (%v): %s", err, msg)}
+		}
 		return nil, err
 	}
 	line := strings.TrimSpace(so.String())
@@ -115,12 +124,51 @@ const (
 	obsReset
 	obsCancelled
 	obsHang
+	obsOutOfFuel // unused by the harness (model only)
+	obsTypedNil  // err == nil and result != nil as an interface, but it holds a nil pointer: the engine emits a record
+	obsCrash     // end-to-end: the sx process died (panic)
 )
 
+// cliCrash: the sx process was killed by a panic.
+type cliCrash struct{ msg string }
+
+func (c *cliCrash) Error() string { return c.msg }
+
+// typedNil: the interface is not nil (so the engine's `result != nil` emits it as a record) but holds a nil pointer.
+func typedNil(res scan.Result) bool {
+	if res == nil {
+		return false
+	}
+	v := reflect.ValueOf(res)
+	return v.Kind() == reflect.Ptr && v.IsNil()
+}
+
+// describeRecord prints a record the way the loggers do, under recover.
+func describeRecord(res scan.Result) (text, panicked string) {
+	defer func() {
+		if r := recover(); r != nil {
+			panicked = fmt.Sprint(r)
+		}
+	}()
+	text = res.String()
+	if _, err := res.MarshalJSON(); err != nil {
+		panicked = "MarshalJSON: " + err.Error()
+	}
+	_ = res.ID()
+	return
+}
+
 func classify(res scan.Result, err error) int {
+	var crash *cliCrash
+	if errors.As(err, &crash) {
+		return obsCrash
+	}
 	if err == nil {
 		if res == nil {
 			return obsNothing
+		}
+		if typedNil(res) {
+			return obsTypedNil
 		}
 		return obsReport
 	}
@@ -468,10 +516,14 @@ func runCase(c *tcase) {
 		c.Stderr = cli.stderr
 	}
 	if o.res != nil {
-		if r, ok := o.res.(*socks5.ScanResult); ok {
+		_, c.PrintPanic = describeRecord(o.res)
+		if r, ok := o.res.(*socks5.ScanResult); ok && r != nil {
 			c.Rec = &rec{IP: r.IP, Port: int(r.Port), Version: r.Version, Scan: r.ScanType}
 		} else {
 			c.Rec = &rec{IP: fmt.Sprintf("%T", o.res)}
+			if typedNil(o.res) {
+				c.Err = fmt.Sprintf("Scan returned err == nil and a scan.Result that is != nil but holds a nil %T", o.res)
+			}
 		}
 	}
 }
@@ -775,6 +827,7 @@ func main() {
 		row := concStage(*seed, *concG, *conc, time.Duration(*concMS)*time.Millisecond, 1500)
 		w := hlib.NewOut(*out)
 		w.Put(row)
+		w.Put(engineStage(12, 4)) // the same probe through scan.NewScanEngine + NewResultChan
 		w.Close()
 		return
 	}
@@ -819,6 +872,9 @@ func main() {
 					g.add("e2e:reply-05-00-split", "accept", 0, 250, -1, k == 0, send(5, 5), send(40, 0, 7, 7)),
 					g.add("e2e:reply-05-02", "accept", 0, 250, -1, true, send(5, 5, 2)),
 					g.add("e2e:reply-04-00", "accept", 0, 250, -1, true, send(5, 4, 0)),
+					g.add("e2e:reply-05-ff", "accept", 0, 250, -1, true, send(5, 5, 255)),
+					g.add("e2e:reply-00-05", "accept", 0, 250, -1, true, send(5, 0, 5)),
+					g.add("e2e:reply-SSH-banner", "accept", 0, 250, -1, true, send(5, 83, 83, 72, 45, 50)),
 					g.add("e2e:one-byte-close", "accept", 0, 250, -1, true, send(5, 5), action{Delay: 20, Kind: "close"}),
 					g.add("e2e:accept-stall", "accept", 0, 250+50*k, -1, true),
 					g.add("e2e:one-byte-stall", "accept", 0, 250+50*k, -1, true, send(5, 5)),
